@@ -1412,7 +1412,7 @@ class _tzparser(object):
                 # BRST+3[BRDT[+2]]
                 j = i
                 while j < len_l and not [x for x in l[j]
-                                         if x in "0123456789:,-+"]:
+                                         if x not in string.ascii_letters]:
                     j += 1
                 if j != i:
                     if not res.stdabbr:
@@ -1442,6 +1442,8 @@ class _tzparser(object):
                                                    int(l[i][2:]) * 60) * signal)
                         elif i + 1 < len_l and l[i + 1] == ':':
                             # -03:00
+                            if l[i + 2][0] not in "0123456789":
+                                return None
                             setattr(res, offattr,
                                     (int(l[i]) * 3600 +
                                      int(l[i + 2]) * 60) * signal)
